@@ -38,7 +38,7 @@ def gen_cases(ctx):
         c["n"] = int(rng.choice([2, 5, 20]))
         c["N"] = int(rng.choice([1, 2, 5, 20], p=[0.25, 0.35, 0.3, 0.1]))
         c["F0"] = str(rng.choice(["I", "random", "sheared", "nearsingular"]))
-        c["L"]["mode"] = str(rng.choice(["const", "timedep", "posdep", "multirate"]))
+        c["L"]["mode"] = str(rng.choice(["const", "timedep", "posdep", "multirate", "pulsed"]))
         if c["L"]["mode"] == "multirate":
             c["L"]["rho"] = float(rng.choice([1e-2, 1e-3]))
         c["L"]["kind"] = str(rng.choice(["general_trace", "general_tracefree", "simple_shear", "rank1", "shear_plus_spin", "axisym_comp",
@@ -93,6 +93,33 @@ def check_case(ctx, case):
     ctx.case(case, nontrivial=moved > 1e-3)
     ctx.cls(f"F0={case['F0']}")
     ctx.cls(f"L={case['L']['kind']}/{case['L']['mode']}")
+    varying = case["L"]["mode"] != "const"
+
+    def explained_by_step_control(v, upto):
+        """Defect model of known finding K10: the same variant re-run with a capped solver step
+        (max_step = |dt|/25, forwarded through update_orientations(**kwargs)) meets the bound, i.e. the
+        discrepancy is LSODA's adaptive step control stepping over a variation of L, not wrong equations."""
+        if not varying:
+            return False
+        r3 = np.random.default_rng([int(case["seed"]), 33, v["n"]])
+        _, A0b = gen.texture(r3, v["n"], v["tex"])
+        mb = pydrex.Mineral(phase=v["phase"], fabric=v["fabric"], regime=core.DeformationRegime(v["regime"]),
+                            n_grains=v["n"], fractions_init=np.full(v["n"], 1.0 / v["n"]), orientations_init=A0b)
+        pb = gen.params_dict(pydrex, v["phase"], gbm_mobility=v["M"], gbs_threshold=v["chi"])
+        Fb = H.F0.copy()
+        try:
+            with warnings.catch_warnings():
+                warnings.simplefilter("ignore")
+                for kk, (a_, b_) in enumerate(zip(H.ts[:-1], H.ts[1:]), start=1):
+                    Fb = mb.update_orientations(pb, Fb, H.Lfun, (a_, b_, H.posfun), max_step=abs(b_ - a_) / 25)
+                    if kk == upto:
+                        break
+        except Exception:
+            return False
+        bnd = 5e-3 + 1e-3 * (upto + 2 * eps[upto - 1])
+        ctx.count("K10_defect_model_evaluations")
+        return bool(float(np.abs(Fb - Fref[upto]).max() / np.abs(Fref[upto]).max()) <= bnd)
+
     for v in variants:
         r2 = np.random.default_rng([int(case["seed"]), 33, v["n"]])
         _, A0 = gen.texture(r2, v["n"], v["tex"])
@@ -100,6 +127,8 @@ def check_case(ctx, case):
                            n_grains=v["n"], fractions_init=np.full(v["n"], 1.0 / v["n"]), orientations_init=A0)
         params = gen.params_dict(pydrex, v["phase"], gbm_mobility=v["M"], gbs_threshold=v["chi"])
         F = H.F0.copy()
+        failed_once = False
+        state_expl = None
         ctx.cls(f"mineral_regime={v['regime']}")
         try:
             with warnings.catch_warnings():
@@ -108,13 +137,26 @@ def check_case(ctx, case):
                     F = m.update_orientations(params, F, H.Lfun, (a, b, H.posfun))
                     bound = 5e-3 + 1e-3 * (k + 2 * eps[k - 1])
                     rel = float(np.abs(F - Fref[k]).max() / np.abs(Fref[k]).max())
-                    ctx.extreme("F_relerr/bound", rel / bound)
-                    ctx.check("F_equals_reference", rel <= bound, case, update=k, rel=rel, bound=bound,
+                    okF = rel <= bound
+                    if okF:
+                        ctx.extreme("F_relerr/bound", rel / bound)
+                    key, expl = "F_equals_reference", None
+                    if not okF and not failed_once:
+                        failed_once = True
+                        # one evaluation of the defect model per variant (on the whole history), reused for its later updates
+                        state_expl = explained_by_step_control(v, N) and explained_by_step_control(v, k)
+                    if not okF:
+                        key, expl = "F_equals_reference/adaptive_steps_skip_variation_of_L", state_expl
+                    ctx.check("F_equals_reference", okF, case, key=key, explained=expl, update=k, rel=rel, bound=bound,
                               variant={kk: (int(vv) if hasattr(vv, "name") else vv) for kk, vv in v.items()})
                     dexp = float(np.linalg.det(H.F0) * np.exp(trint[k]))
                     drel = abs(float(np.linalg.det(F)) - dexp) / abs(dexp)
-                    ctx.extreme("detF_relerr/bound", drel / (3 * bound))
-                    ctx.check("detF_equals_exp_int_trL", drel <= 3 * bound, case, update=k, rel=drel)
+                    okD = drel <= 3 * bound
+                    if okD:
+                        ctx.extreme("detF_relerr/bound", drel / (3 * bound))
+                    ctx.check("detF_equals_exp_int_trL", okD, case, update=k, rel=drel,
+                              key=("detF_equals_exp_int_trL" if okF else "F_equals_reference/adaptive_steps_skip_variation_of_L"),
+                              explained=(None if okF else state_expl))
             ends.append(F)
         except Exception as e:
             ctx.check("update_completes", False, case, key=f"raises/{type(e).__name__}",
@@ -141,8 +183,24 @@ def check_case(ctx, case):
                     F = pydrex.minerals.update_all(ms, params2, F, H.Lfun, (a, b, H.posfun))
             bound = 5e-3 + 1e-3 * (N + 2 * eps[N - 1])
             rel = float(np.abs(F - Fref[N]).max() / np.abs(Fref[N]).max())
-            ctx.extreme("update_all_relerr/bound", rel / bound)
-            ctx.check("update_all_returns_single_phase_F", rel <= bound, case, order=order, rel=rel, bound=bound)
+            okU = rel <= bound
+            if okU:
+                ctx.extreme("update_all_relerr/bound", rel / bound)
+            keyu, explu = "update_all_returns_single_phase_F", None
+            if not okU and varying:
+                # same defect model (K10), evaluated through update_all with a capped step
+                keyu = "F_equals_reference/adaptive_steps_skip_variation_of_L"
+                try:
+                    ms2 = {"ol": [mk(P.olivine)], "ol_en": [mk(P.olivine), mk(P.enstatite)], "en_ol": [mk(P.enstatite), mk(P.olivine)]}[order]
+                    Fb = H.F0.copy()
+                    with warnings.catch_warnings():
+                        warnings.simplefilter("ignore")
+                        for (a_, b_) in zip(H.ts[:-1], H.ts[1:]):
+                            Fb = pydrex.minerals.update_all(ms2, params2, Fb, H.Lfun, (a_, b_, H.posfun), max_step=abs(b_ - a_) / 25)
+                    explu = bool(float(np.abs(Fb - Fref[N]).max() / np.abs(Fref[N]).max()) <= bound)
+                except Exception:
+                    explu = False
+            ctx.check("update_all_returns_single_phase_F", okU, case, key=keyu, explained=explu, order=order, rel=rel, bound=bound)
             ctx.check("update_all_updates_every_mineral", all(len(x.orientations) == N + 1 for x in ms), case, order=order)
         except Exception as e:
             ctx.check("update_all_completes", False, case, key=f"raises/{type(e).__name__}",
